@@ -164,3 +164,12 @@ func verifStatusWrite(file string, op string, hadOld bool, oldS *StatusFileData,
 	}
 	verifAppend("VERIF_STATUS_LOG", rec)
 }
+
+// verifPointIfShorter is the point name, hit only when the record just written to f ends before oldSize,
+// i.e. between the write and the truncation of a status rewrite that leaves the tail of the older, longer
+// record behind it.
+func verifPointIfShorter(name string, detail string, f *os.File, oldSize int64) {
+	if pos, err := f.Seek(0, 1); err == nil && pos < oldSize {
+		verifPoint(name, detail)
+	}
+}
